@@ -724,6 +724,53 @@ structure Driver where
 def parseBool (s : String) : Option Bool :=
   if s == "1" then some true else if s == "0" then some false else none
 
+/-! ### Ring drop with a kernel submission thread (`Completions::drop`, src/io_uring/cq.rs)
+
+With a kernel thread the flush at the start of the Ring's drop only wakes the thread; it takes the
+queue on its own time. A small model of the order of the steps: the queue holds abandoned
+operations (each followed by its cancel request, which is of no consequence for an operation
+that has not started), `inflight` the operations the kernel has started. -/
+
+structure KtDrop where
+  /-- abandoned operations still in the submission queue, not yet taken by the thread -/
+  queued : List Nat := []
+  /-- operations the kernel has started -/
+  inflight : List Nat := []
+  /-- completions posted, not yet processed -/
+  posted : List Nat := []
+  /-- operations whose state and resources were released -/
+  released : List Nat := []
+  /-- the Ring has finished its drop: nobody processes completions any more -/
+  gone : Bool := false
+  deriving Repr, DecidableEq
+
+inductive KtStep where
+  /-- the kernel thread takes the queue -/
+  | take
+  /-- `IORING_REGISTER_SYNC_CANCEL(ANY | ALL)`: everything in flight completes with `-ECANCELED` -/
+  | sweep
+  /-- the final collection: every posted completion is processed, abandoned states are released -/
+  | drain
+  /-- the drop returns -/
+  | done
+  deriving Repr, DecidableEq
+
+def KtDrop.step (s : KtDrop) : KtStep → KtDrop
+  | .take => { s with queued := [], inflight := s.inflight ++ s.queued }
+  | .sweep => { s with inflight := [], posted := s.posted ++ s.inflight }
+  | .drain => if s.gone then s else { s with posted := [], released := s.released ++ s.posted }
+  | .done => { s with gone := true }
+
+def KtDrop.run (s : KtDrop) (l : List KtStep) : KtDrop := l.foldl KtDrop.step s
+
+/-- The drop as repaired by c481592: wait for the thread to take the queue, then cancel, collect,
+return. (The thread may run again later: nothing is queued any more.) -/
+def ktDropFixed : List KtStep := [.take, .sweep, .drain, .done, .take]
+
+/-- The drop before the repair, with a thread that is slower than the drop: cancel and collect
+first, the thread takes the queue afterwards. -/
+def ktDropOld : List KtStep := [.sweep, .drain, .done, .take, .sweep, .drain]
+
 /-- Bits `0 .. n-1` of `m`, least significant first, without trailing `false`s
 beyond the highest set bit (`dmask=` of the header: bit `k` = descriptor `k`
 is direct). -/
@@ -770,7 +817,10 @@ def stepLine (d : Driver) (toks : List String) : Driver × List String :=
     -- request) the thread has not taken when the Ring is dropped: the drop waits for the thread to
     -- take it, then cancels what is in flight and processes the last completions, which releases
     -- the read's state and buffer.
-    if !d.live then (d, ["bad-op"]) else (d, ["sqpoll-ring-drop queued=2 released=1/1"])
+    if !d.live then (d, ["bad-op"])
+    else
+      let r := KtDrop.run { queued := [0] } ktDropFixed
+      (d, [s!"sqpoll-ring-drop queued=2 released={r.released.length}/1"])
   | ["teardown", "sqpoll-last-handle"] =>
     -- A ring with a kernel submission thread, of its own: the Ring is dropped, then a regular
     -- `AsyncFd` — the last handle. Its CLOSE is queued after the Ring is gone and consumed by the
